@@ -97,7 +97,11 @@ pub fn observe_paths(types: &PortableRegistry, st: &TypeGeneratorSettings) -> Va
     for id in 0..n {
         let r = guarded(|| {
             let g = TypeGenerator::new(types, st);
-            g.resolve_type_path(id).map(|p| p.to_token_stream(st))
+            g.resolve_type_path(id).map(|p| {
+                // the public accessors of TypePath, observed next to its tokens
+                let vec_of = p.vec_type_param().map(|e| e.to_token_stream(st));
+                (p.to_token_stream(st), p.is_compact(), p.is_string(), p.is_uint_up_to_u128(), vec_of)
+            })
         });
         let mut o = match &r {
             Err(p) => panic_record(p.clone()),
@@ -105,8 +109,18 @@ pub fn observe_paths(types: &PortableRegistry, st: &TypeGeneratorSettings) -> Va
             Ok(Ok(_)) => ok_record(),
         };
         o["ty"] = json!({"k":"other","text":""});
-        if let Ok(Ok(ts)) = r {
+        o["is_compact"] = json!(false);
+        o["is_string"] = json!(false);
+        o["is_uint"] = json!(false);
+        o["vec_of"] = json!({"k":"none"});
+        if let Ok(Ok((ts, c, s, u, v))) = r {
             o["ty"] = project::type_tokens(ts);
+            o["is_compact"] = json!(c);
+            o["is_string"] = json!(s);
+            o["is_uint"] = json!(u);
+            if let Some(v) = v {
+                o["vec_of"] = project::type_tokens(v);
+            }
         }
         out.push(o);
     }
